@@ -15,8 +15,16 @@ NodeOf(kind, eu, ev) ==
   CASE kind = "mixed" -> N(("u" :> Leaf(eu)) @@ ("v" :> Leaf(ev)), <<StrV("e")>>)
     [] kind = "dict"  -> N(("u" :> Leaf(eu)) @@ ("v" :> Leaf(ev)), <<>>)
     [] kind = "list"  -> N(<<>>, <<Leaf(eu), Leaf(ev)>>)
-World(kind, eu, ev, envs, res) == [root |-> N(("s" :> NodeOf(kind, eu, ev)) @@ ("t" :> StrV("ok")), <<>>), envs |-> envs, res |-> res]
+\* p, q: two references to the node s (a diamond over a container); r, r2: a plain reference and a splice using t again
+World(kind, eu, ev, envs, res) ==
+  [root |-> N(("s" :> NodeOf(kind, eu, ev)) @@ ("t" :> StrV("ok")) @@ ("p" :> Dyn(Ref("s"))) @@ ("q" :> Dyn(Ref("s")))
+              @@ ("r" :> Dyn(Ref("t"))) @@ ("r2" :> Dyn(Cat(<<Lit("pre-"), Ref("t")>>))), <<>>), envs |-> envs, res |-> res]
 ReadNames(kind) == IF kind = "list" THEN <<"s.0", "s.1", "t">> ELSE <<"s.u", "s.v", "t">>
+\* ONE Unpack into a struct { R interface{}; R2 string; RR interface{} (again r); P, Q []interface{} or interface{} }:
+\* every field is the value of its setting, read for itself - using a name twice, or reaching a container along two
+\* paths, is no cycle
+StructFields(kind) == << [n |-> "r", t |-> "iface"], [n |-> "r2", t |-> "string"], [n |-> "r", t |-> "iface"],
+                         [n |-> "p", t |-> IF kind = "list" THEN "slice" ELSE "iface"], [n |-> "q", t |-> IF kind = "list" THEN "slice" ELSE "iface"] >>
 
 Exp(F(_)) == LET ideal == F({})
                  alts  == {[devs |-> DS, out |-> F(DS)] : DS \in DevSets}
@@ -35,6 +43,12 @@ Case(kind, W) ==
                 typed |-> LET F(DS) == OutTyped(GetTyped(DS, W, n)) IN Exp(F),
                 has   |-> LET F(DS) == OutHas(Has(DS, W, n)) IN Exp(F)]],
    unpack |-> LET F(DS) == OutTyped(UnpackAll(DS, W)) IN Exp(F),
+   fields |-> StructFields(kind),
+   struct |-> LET F(DS) == LET fs == StructFields(kind)
+                               rs == [i \in 1..Len(fs) |-> OutTyped(GetTyped(DS, W, fs[i].n))]
+                               bad == {i \in 1..Len(fs) : "err" \in DOMAIN rs[i]} IN
+                           IF bad # {} THEN [err |-> "any", errs |-> UNION {rs[i].errs : i \in bad}] ELSE [ok |-> rs]
+              IN Exp(F),
    flat   |-> LET F(DS) == Flatten(DS, W, 8) IN Exp(F)]
 
 E1 == N(("m" :> StrV("e1")), <<>>)
